@@ -23,6 +23,10 @@ def main():
         import check_tree
 
         return check_tree.run(a.prop, a.tier, replay=a.replay)
+    if a.prop == "C05":
+        import check_c05
+
+        return check_c05.run(a.prop, a.tier, replay=a.replay)
     if a.prop in ("C06",):
         import check_bt
 
